@@ -27,7 +27,7 @@ CONSTANTS
   MaxOps,          \* API calls per handle
   MaxIds,          \* bound on table / temp ids
   InitN,           \* tables in the initial stack
-  OpKinds,         \* subset of {"add","addition","abort","empty","compactall","compactrange","reload","reopen","clean"}
+  OpKinds,         \* subset of {"add","autoadd","refused","addition","abort","empty","compactall","compactrange","autocompact","reload","reopen","open","close","read","clean"}
   ReaderHandles,   \* handles restricted to ReaderOps (e.g. a reading/reloading handle racing writers)
   ReaderOps,
   ReaderMaxOps,    \* API calls of a reader handle
@@ -57,7 +57,9 @@ TM(k) == "tmp" \o ToString(k)
 L0 == [op |-> "none", txn |-> 0, names |-> <<>>, fd |-> 0, holdLock |-> FALSE,
        first |-> 0, last |-> 0, i |-> 0, subq |-> <<>>, tmp |-> "", tid |-> 0, parts |-> 0,
        newTabs |-> {}, want |-> <<>>, toOpen |-> <<>>, reused |-> {}, gc |-> {}, gcq |-> <<>>,
-       after |-> "ret", reuse |-> TRUE, res |-> "ok", rres |-> "ok"]
+       after |-> "ret", reuse |-> TRUE, res |-> "ok", rres |-> "ok",
+       auto |-> FALSE,      \* the call goes through Stack.Add with automatic compaction enabled
+       refuse |-> "no"]     \* "no": every table passes checkAddition; "last": the last table of the transaction is refused; "any": either (trace validation)
 
 InitNames == [k \in 1..InitN |-> TN(k)]
 InitTab(k) == [min |-> k, max |-> k, txns |-> <<k * 10>>, hash |-> "h", refs |-> <<>>]
@@ -77,16 +79,16 @@ Init ==
   /\ pc = [h \in Handles |-> "idle"] /\ loc = [h \in Handles |-> L0]
   /\ stack = [h \in Handles |-> InitNames] /\ closedRd = [h \in Handles |-> {}]
   /\ opsLeft = [h \in Handles |-> IF h \in ReaderHandles THEN ReaderMaxOps ELSE MaxOps] /\ nextId = InitN + 1 /\ nextTxn = InitN + 1
-  /\ act = [n |-> 0, h |-> 0, a |-> "Init", op |-> "", pk |-> "", res |-> "", arg |-> <<>>]
+  /\ act = [n |-> 0, h |-> 0, a |-> "Init", op |-> "", pk |-> "", res |-> "", arg |-> <<>>, path |-> ""]
 
 -----------------------------------------------------------------------------
 (* helpers *)
 (* the history variable is frozen in liveness configurations (Record <- NoRecord): TLC's liveness checking does not go with a VIEW *)
 Record == TRUE
 NoRecord == FALSE
-Act(h, a, op, pk, res) == act' = IF Record THEN [n |-> act.n + 1, h |-> h, a |-> a, op |-> op, pk |-> pk, res |-> res, arg |-> <<>>] ELSE act
-ActArg(h, a, op, arg) == act' = IF Record THEN [n |-> act.n + 1, h |-> h, a |-> a, op |-> op, pk |-> "", res |-> "", arg |-> arg] ELSE act
-Internal(h, a) == Act(h, a, "internal", "", "")
+ActP(h, a, op, pk, res, path) == act' = IF Record THEN [n |-> act.n + 1, h |-> h, a |-> a, op |-> op, pk |-> pk, res |-> res, arg |-> <<>>, path |-> path] ELSE act
+ActArg(h, a, op, arg) == act' = IF Record THEN [n |-> act.n + 1, h |-> h, a |-> a, op |-> op, pk |-> "", res |-> "", arg |-> arg, path |-> ""] ELSE act
+Internal(h, a) == ActP(h, a, "internal", "", "", "")
 Go(h, p, l) == pc' = [pc EXCEPT ![h] = p] /\ loc' = [loc EXCEPT ![h] = l]
 KeepMem == UNCHANGED <<stack, closedRd>>
 KeepCtr == UNCHANGED <<opsLeft, nextId, nextTxn>>
@@ -110,19 +112,25 @@ SwapGc(h, w, reuse) == IF reuse THEN SetOf(stack[h]) \ SetOf(w) ELSE SetOf(stack
 -----------------------------------------------------------------------------
 (* API call starts (the scheduler's "call" gate) *)
 Start(h, op, l, firstpc, c) ==
-  /\ pc[h] = "idle" /\ opsLeft[h] > 0 /\ op \in (IF h \in ReaderHandles THEN ReaderOps ELSE OpKinds)
+  /\ pc[h] = (IF op = "open" THEN "closed" ELSE "idle") /\ opsLeft[h] > 0 /\ op \in (IF h \in ReaderHandles THEN ReaderOps ELSE OpKinds)
   /\ opsLeft' = [opsLeft EXCEPT ![h] = @ - 1]
   /\ Go(h, firstpc, l)
   /\ FsCall(h, c) /\ FsNop /\ KeepMem
   /\ ActArg(h, "Start_" \o op, "call", <<op, l.txn, l.parts, l.first, l.last>>)
 
-StartAdd(h, parts, op) ==
-  /\ stack[h] # <<>> \/ TRUE
+(* op: "add" (Stack.Add), "autoadd" (Stack.Add with automatic compaction), "refused" (Stack.Add of a table that checkAddition   *)
+(* refuses), "empty" (Stack.Add that writes nothing), "addition" / "abort" (NewAddition + Addition.Add* + Commit / Close).      *)
+(* txn is a parameter so that trace validation can start the transaction the trace names.                                      *)
+StartAddT(h, parts, op, txn, auto, refuse) ==
   /\ Room
-  /\ LET marks == IF op = "empty" THEN {} ELSE {nextTxn * 10 + k : k \in 0..(parts - 1)} IN
-     Start(h, op, [L0 EXCEPT !.op = op, !.txn = nextTxn, !.parts = parts], "a_lock",
-           [op |-> op, txn |-> nextTxn, marks |-> marks, norecs |-> (op = "empty")])
-  /\ nextTxn' = nextTxn + 1 /\ UNCHANGED nextId
+  /\ LET marks == IF op = "empty" THEN {} ELSE {txn * 10 + k : k \in 0..(parts - 1)} IN
+     Start(h, op, [L0 EXCEPT !.op = op, !.txn = txn, !.parts = parts, !.auto = auto, !.refuse = refuse], "a_lock",
+           [op |-> op, txn |-> txn, marks |-> marks, norecs |-> (op = "empty")])
+  /\ UNCHANGED nextId
+
+StartAdd(h, parts, op) ==
+  /\ StartAddT(h, parts, op, nextTxn, op = "autoadd", IF op = "refused" THEN "last" ELSE "no")
+  /\ nextTxn' = nextTxn + 1
 
 StartCompact(h, f, l, op) ==
   /\ Room
@@ -140,11 +148,48 @@ StartOther(h, op, firstpc, l) ==
   /\ Start(h, op, l, firstpc, [op |-> op, txn |-> 0, marks |-> {}, norecs |-> FALSE])
   /\ UNCHANGED <<nextId, nextTxn>>
 
+(* a call that makes no filesystem call at all: a read through the merged view; CompactAll on a stack of fewer than two     *)
+(* tables; compactRange with first >= last                                                                                  *)
+StartNoop(h, op) == StartOther(h, op, "ret", [L0 EXCEPT !.op = op])
+
+(* NewStack by a process that holds no handle: an empty in-memory stack, then reload *)
+StartOpenFrom(h, pcs) ==
+  /\ pc[h] \in pcs /\ opsLeft[h] > 0 /\ "open" \in (IF h \in ReaderHandles THEN ReaderOps ELSE OpKinds)
+  /\ opsLeft' = [opsLeft EXCEPT ![h] = @ - 1]
+  /\ Go(h, "r_read", ToReload([L0 EXCEPT !.op = "open"], "ret", TRUE))
+  /\ stack' = [stack EXCEPT ![h] = <<>>] /\ closedRd' = [closedRd EXCEPT ![h] = {}]
+  /\ FsCall(h, [op |-> "open", txn |-> 0, marks |-> {}, norecs |-> FALSE]) /\ FsNop
+  /\ ActArg(h, "Start_open", "call", <<"open", 0, 0, 0, 0>>)
+  /\ UNCHANGED <<nextId, nextTxn>>
+
+StartOpen(h) == StartOpenFrom(h, {"closed"})
+
+(* compactRange(f, l) without the exhaustive model's distinction between CompactAll and a proper sub-range *)
+StartCompactT(h, f, l) ==
+  /\ Room /\ 1 <= f /\ f < l /\ l <= Len(stack[h])
+  /\ Start(h, "compactrange", [L0 EXCEPT !.op = "compactrange", !.first = f, !.last = l], "k_lock", [op |-> "compactrange", txn |-> 0, marks |-> {}, norecs |-> FALSE])
+  /\ UNCHANGED <<nextId, nextTxn>>
+
+(* AutoCompact: tableSizesForCompaction + suggestCompactionSegment choose a range of at least two tables or nothing.  The   *)
+(* sizes are not modelled: the model allows ANY such range (an over-approximation that trace validation resolves).          *)
+AutoRanges(h) == {<<f, l>> \in (1..Len(stack[h])) \X (1..Len(stack[h])) : f < l}
+ToAuto(h, l, r) == Go(h, "k_lock", [l EXCEPT !.first = r[1], !.last = r[2], !.res = "ok"])
+StartAutoCompact(h) ==
+  /\ Room
+  /\ \/ StartNoop(h, "autocompact")
+     \/ \E r \in AutoRanges(h) :
+          /\ Start(h, "autocompact", [L0 EXCEPT !.op = "autocompact", !.first = r[1], !.last = r[2]], "k_lock", [op |-> "autocompact", txn |-> 0, marks |-> {}, norecs |-> FALSE])
+          /\ UNCHANGED <<nextId, nextTxn>>
+
 Calls(h) ==
   \/ StartAdd(h, 1, "add")
   \/ StartAdd(h, 2, "addition")
   \/ StartAdd(h, 2, "abort")       \* NewAddition, two tr.Add, then tr.Close() without Commit: an abandoned transaction
   \/ StartAdd(h, 1, "empty")
+  \/ StartAdd(h, 1, "autoadd")     \* Stack.Add followed by AutoCompact: the range is chosen by a size heuristic; here: any range, or none
+  \/ StartAdd(h, 1, "refused")     \* Stack.Add whose table the name check refuses
+  \/ StartAutoCompact(h)
+  \/ StartNoop(h, "read")
   \/ StartCompactAll(h)
   \* every range f < l <= 7, spelled out so that TLC labels each transition with its range (used by the transition cover)
   \/ StartCompact(h, 1, 2, "compactrange")
@@ -171,6 +216,8 @@ Calls(h) ==
   \/ StartOther(h, "reload", "r_read", ToReload([L0 EXCEPT !.op = "reload"], "ret", TRUE))
   \/ StartOther(h, "reopen", "c_read", [L0 EXCEPT !.op = "reopen"])
   \/ StartOther(h, "clean", "l_lock", [L0 EXCEPT !.op = "clean"])
+  \/ StartOther(h, "close", "c_read", [L0 EXCEPT !.op = "close"])
+  \/ StartOpen(h)
 
 -----------------------------------------------------------------------------
 (* reload(reuseOpen):  ReadFile(list) -> Open(each table it cannot reuse) ->  *)
@@ -194,7 +241,7 @@ R_Read(h) ==
   /\ pc[h] = "r_read"
   /\ FsReadList(h) /\ ApiUnch /\ KeepCtr
   /\ AfterRead(h, loc[h], ListNames)
-  /\ Act(h, "R_Read", "readfile", PKList, ExistRes(LIST))
+  /\ ActP(h, "R_Read", "readfile", PKList, ExistRes(LIST), LIST)
 
 R_Open(h) ==
   /\ pc[h] = "r_open"
@@ -215,7 +262,7 @@ R_Open(h) ==
                                                      \E k \in DOMAIN l.want : k > j /\ l.want[k] = n}}]
              /\ UNCHANGED stack
              /\ Go(h, "r_reread", l)
-     /\ Act(h, "R_Open", "open", PKTab, ExistRes(n))
+     /\ ActP(h, "R_Open", "open", PKTab, ExistRes(n), n)
   /\ FsNop /\ ApiUnch /\ KeepCtr
 
 R_Reread(h) ==
@@ -224,7 +271,7 @@ R_Reread(h) ==
   /\ IF ListNames = loc[h].want
      THEN Go(h, loc[h].after, [loc[h] EXCEPT !.rres = "fail"])     \* os.ErrNotExist
      ELSE Go(h, "r_read", loc[h])                                  \* the list changed: start over
-  /\ Act(h, "R_Reread", "readfile", PKList, ExistRes(LIST))
+  /\ ActP(h, "R_Reread", "readfile", PKList, ExistRes(LIST), LIST)
 
 R_Gc(h) ==
   /\ pc[h] = "r_gc"
@@ -232,7 +279,7 @@ R_Gc(h) ==
        /\ IF Exists(n) THEN FsRemove(h, n, PKTab) ELSE FsNop
        /\ LET l == [loc[h] EXCEPT !.gc = @ \ {n}] IN
           IF l.gc = {} THEN Go(h, l.after, l) ELSE Go(h, "r_gc", l)
-       /\ Act(h, "R_Gc", "remove", PKTab, ExistRes(n))
+       /\ ActP(h, "R_Gc", "remove", PKTab, ExistRes(n), n)
   /\ ApiUnch /\ KeepCtr /\ KeepMem
 
 -----------------------------------------------------------------------------
@@ -246,7 +293,7 @@ A_Lock(h) ==
           /\ IF loc[h].op \in {"addition", "abort"} THEN Go(h, "ret", [loc[h] EXCEPT !.res = "lock"])
              ELSE Go(h, "r_read", ToReload([loc[h] EXCEPT !.res = "lock"], "ret", TRUE))
   /\ ApiUnch /\ KeepCtr /\ KeepMem
-  /\ Act(h, "A_Lock", "createexcl", PKLock, CreateExclRes(LOCK))
+  /\ ActP(h, "A_Lock", "createexcl", PKLock, CreateExclRes(LOCK), LOCK)
 
 A_UpToDate(h) ==
   /\ pc[h] = "a_uptodate"
@@ -255,7 +302,7 @@ A_UpToDate(h) ==
      THEN Go(h, "a_temp", [loc[h] EXCEPT !.names = stack[h], !.i = 0])
      ELSE Go(h, "a_unlock_stale", loc[h])
   /\ ApiUnch /\ KeepCtr /\ KeepMem
-  /\ Act(h, "A_UpToDate", "readfile", PKList, ExistRes(LIST))
+  /\ ActP(h, "A_UpToDate", "readfile", PKList, ExistRes(LIST), LIST)
 
 A_UnlockStale(h) ==     \* tr.Close(): os.Remove(lock); then ErrLockFailure, Add reloads
   /\ pc[h] = "a_unlock_stale"
@@ -263,7 +310,7 @@ A_UnlockStale(h) ==     \* tr.Close(): os.Remove(lock); then ErrLockFailure, Add
   /\ IF loc[h].op \in {"addition", "abort"} THEN Go(h, "ret", [loc[h] EXCEPT !.res = "lock", !.holdLock = FALSE])
      ELSE Go(h, "r_read", ToReload([loc[h] EXCEPT !.res = "lock", !.holdLock = FALSE], "ret", TRUE))
   /\ ApiUnch /\ KeepCtr /\ KeepMem
-  /\ Act(h, "A_UnlockStale", "remove", PKLock, ExistRes(LOCK))
+  /\ ActP(h, "A_UnlockStale", "remove", PKLock, ExistRes(LOCK), LOCK)
 
 (* TempFile; the table is then written and closed (private, not a filesystem step of interest) *)
 A_Temp(h) ==
@@ -278,21 +325,32 @@ A_Temp(h) ==
         THEN Go(h, "a_rm_tmp", [l EXCEPT !.tmp = TM(id), !.tid = id])    \* ErrEmptyTable: nothing to add
         ELSE Go(h, "a_check", [l EXCEPT !.tmp = TM(id), !.tid = id])
   /\ ApiUnch /\ KeepMem
-  /\ Act(h, "A_Temp", "tempfile", PKTmp, "ok")
+  /\ ActP(h, "A_Temp", "tempfile", PKTmp, "ok", TM(nextId))
+
+(* does checkAddition refuse the table now being added?  (decided by the content, which is not modelled) *)
+Refusals(l) == CASE l.refuse = "no" -> {FALSE}
+                 [] l.refuse = "last" -> {l.i + 1 = l.parts}
+                 [] OTHER -> BOOLEAN
 
 A_Check(h) ==           \* checkAddition reads the temporary back ...
   /\ pc[h] = "a_check"
   /\ FsNop /\ ApiUnch /\ KeepCtr /\ KeepMem
   /\ LET q == SelectSeq(loc[h].names, LAMBDA n : n \in loc[h].newTabs) IN
-     IF q = <<>> THEN Go(h, "a_rename_tab", loc[h]) ELSE Go(h, "a_check_new", [loc[h] EXCEPT !.gcq = q])
-  /\ Act(h, "A_Check", "open", PKTmp, ExistRes(loc[h].tmp))
+     IF q # <<>> THEN Go(h, "a_check_new", [loc[h] EXCEPT !.gcq = q])
+     ELSE \E rej \in Refusals(loc[h]) :
+            IF rej THEN Go(h, "a_rm_tmp", [loc[h] EXCEPT !.res = "rejected"])     \* tr.Add returns the error: deferred Remove(temporary), then tr.Close()
+                   ELSE Go(h, "a_rename_tab", loc[h])
+  /\ ActP(h, "A_Check", "open", PKTmp, ExistRes(loc[h].tmp), loc[h].tmp)
 
 A_CheckNew(h) ==        \* ... and opens the tables added earlier in the same transaction (validated against each other)
   /\ pc[h] = "a_check_new"
   /\ FsNop /\ ApiUnch /\ KeepCtr /\ KeepMem
   /\ LET l == loc[h]  n == Head(l.gcq) IN
-     /\ IF Tail(l.gcq) = <<>> THEN Go(h, "a_rename_tab", [l EXCEPT !.gcq = <<>>]) ELSE Go(h, "a_check_new", [l EXCEPT !.gcq = Tail(@)])
-     /\ Act(h, "A_CheckNew", "open", PKTab, ExistRes(n))
+     /\ IF Tail(l.gcq) # <<>> THEN Go(h, "a_check_new", [l EXCEPT !.gcq = Tail(@)])
+        ELSE \E rej \in Refusals(l) :
+               IF rej THEN Go(h, "a_rm_tmp", [l EXCEPT !.gcq = <<>>, !.res = "rejected"])
+                      ELSE Go(h, "a_rename_tab", [l EXCEPT !.gcq = <<>>])
+     /\ ActP(h, "A_CheckNew", "open", PKTab, ExistRes(n), n)
 
 A_RenameTab(h) ==
   /\ pc[h] = "a_rename_tab"
@@ -300,17 +358,18 @@ A_RenameTab(h) ==
      /\ FsRename(h, l.tmp, PKTmp, n, PKTab)
      /\ Go(h, "a_rm_tmp", [l EXCEPT !.names = Append(@, n), !.newTabs = @ \cup {n}])
   /\ ApiUnch /\ KeepCtr /\ KeepMem
-  /\ Act(h, "A_RenameTab", "rename", PKTmp, "ok")
+  /\ ActP(h, "A_RenameTab", "rename", PKTmp, "ok", loc[h].tmp)
 
 A_RmTmp(h) ==           \* deferred os.Remove(tab.Name()): ENOENT after the rename, ok for an empty table
   /\ pc[h] = "a_rm_tmp"
   /\ LET l == loc[h] IN
      /\ IF Exists(l.tmp) THEN FsRemove(h, l.tmp, PKTmp) ELSE FsNop
      /\ IF l.op = "empty" THEN Go(h, "a_close_unlock", [l EXCEPT !.tmp = ""])
+        ELSE IF l.res = "rejected" THEN Go(h, IF l.newTabs = {} THEN "a_close_unlock" ELSE "a_close_rm", [l EXCEPT !.tmp = ""])   \* refused by checkAddition
         ELSE IF l.i + 1 < l.parts THEN Go(h, "a_temp", [l EXCEPT !.tmp = "", !.i = @ + 1])
         ELSE IF l.op = "abort" THEN Go(h, "a_close_rm", [l EXCEPT !.tmp = "", !.res = "rejected"])    \* the caller gives up: tr.Close()
         ELSE Go(h, "a_write", [l EXCEPT !.tmp = ""])
-     /\ Act(h, "A_RmTmp", "remove", PKTmp, ExistRes(l.tmp))
+     /\ ActP(h, "A_RmTmp", "remove", PKTmp, ExistRes(l.tmp), l.tmp)
   /\ ApiUnch /\ KeepCtr /\ KeepMem
 
 A_Write(h) ==           \* Commit: write the new list through the descriptor of the lock file
@@ -318,7 +377,7 @@ A_Write(h) ==           \* Commit: write the new list through the descriptor of 
   /\ FsWriteNames(h, loc[h].fd, loc[h].names)
   /\ Go(h, "a_commit", loc[h])
   /\ ApiUnch /\ KeepCtr /\ KeepMem
-  /\ Act(h, "A_Write", "write", PKLock, "ok")
+  /\ ActP(h, "A_Write", "write", PKLock, "ok", LOCK)
 
 A_Commit(h) ==          \* rename(tables.list.lock -> tables.list)
   /\ pc[h] = "a_commit"
@@ -328,7 +387,7 @@ A_Commit(h) ==          \* rename(tables.list.lock -> tables.list)
      ELSE /\ FsNop      \* the lock file is gone: tr.Close() removes the new tables
           /\ Go(h, "a_close_rm", [loc[h] EXCEPT !.res = "other"])
   /\ ApiUnch /\ KeepCtr /\ KeepMem
-  /\ Act(h, "A_Commit", "rename", PKLock, ExistRes(LOCK))
+  /\ ActP(h, "A_Commit", "rename", PKLock, ExistRes(LOCK), LOCK)
 
 A_CloseRm(h) ==         \* Addition.Close(): remove the tables that were not committed
   /\ pc[h] = "a_close_rm"
@@ -336,20 +395,26 @@ A_CloseRm(h) ==         \* Addition.Close(): remove the tables that were not com
        /\ IF Exists(n) THEN FsRemove(h, n, PKTab) ELSE FsNop
        /\ LET l == [loc[h] EXCEPT !.newTabs = @ \ {n}] IN
           IF l.newTabs = {} THEN Go(h, "a_close_unlock", l) ELSE Go(h, "a_close_rm", l)
-       /\ Act(h, "A_CloseRm", "remove", PKTab, ExistRes(n))
+       /\ ActP(h, "A_CloseRm", "remove", PKTab, ExistRes(n), n)
   /\ ApiUnch /\ KeepCtr /\ KeepMem
 
 A_CloseUnlock(h) ==     \* Addition.Close(): lockFileName # "" => os.Remove(lock)
   /\ pc[h] = "a_close_unlock"
   /\ IF Exists(LOCK) THEN FsRemove(h, LOCK, PKLock) ELSE FsNop
-  /\ Go(h, "ret", [loc[h] EXCEPT !.holdLock = FALSE])
+  /\ LET l == [loc[h] EXCEPT !.holdLock = FALSE] IN
+     IF l.auto /\ l.op = "empty" /\ l.res = "ok"       \* Stack.Add of nothing succeeded: AutoCompact runs all the same
+     THEN (Go(h, "ret", l) \/ \E r \in AutoRanges(h) : ToAuto(h, l, r))
+     ELSE Go(h, "ret", l)
   /\ ApiUnch /\ KeepCtr /\ KeepMem
-  /\ Act(h, "A_CloseUnlock", "remove", PKLock, ExistRes(LOCK))
+  /\ ActP(h, "A_CloseUnlock", "remove", PKLock, ExistRes(LOCK), LOCK)
 
 (* reload after the commit returned: its error is the result of Add *)
 A_Done(h) ==
   /\ pc[h] = "a_done"
-  /\ Go(h, "ret", [loc[h] EXCEPT !.res = IF @ = "ok" /\ loc[h].rres # "ok" THEN "other" ELSE @])
+  /\ LET l == [loc[h] EXCEPT !.res = IF @ = "ok" /\ loc[h].rres # "ok" THEN "other" ELSE @] IN
+     IF l.auto /\ l.res = "ok"                         \* Stack.Add: the commit succeeded, AutoCompact follows (its error is Add's result)
+     THEN (Go(h, "ret", l) \/ \E r \in AutoRanges(h) : ToAuto(h, l, r))
+     ELSE Go(h, "ret", l)
   /\ FsNop /\ ApiUnch /\ KeepCtr /\ KeepMem
   /\ Internal(h, "A_Done")
 
@@ -368,7 +433,7 @@ K_Lock(h) ==
      THEN FsCreate(h, LOCK, KFile) /\ Go(h, "k_uptodate", [loc[h] EXCEPT !.holdLock = TRUE])
      ELSE FsNop /\ Go(h, "ret", loc[h])                 \* (false, nil)
   /\ ApiUnch /\ KeepCtr /\ KeepMem
-  /\ Act(h, "K_Lock", "createexcl", PKLock, CreateExclRes(LOCK))
+  /\ ActP(h, "K_Lock", "createexcl", PKLock, CreateExclRes(LOCK), LOCK)
 
 K_UpToDate(h) ==
   /\ pc[h] = "k_uptodate"
@@ -376,7 +441,7 @@ K_UpToDate(h) ==
   /\ IF ListNames = stack[h] THEN Go(h, "k_sublock", [loc[h] EXCEPT !.i = loc[h].first])
                              ELSE ToCleanup(h, loc[h])
   /\ ApiUnch /\ KeepCtr /\ KeepMem
-  /\ Act(h, "K_UpToDate", "readfile", PKList, ExistRes(LIST))
+  /\ ActP(h, "K_UpToDate", "readfile", PKList, ExistRes(LIST), LIST)
 
 K_SubLock(h) ==
   /\ pc[h] = "k_sublock"
@@ -386,7 +451,7 @@ K_SubLock(h) ==
              /\ LET l2 == [l EXCEPT !.i = @ + 1, !.subq = Append(@, p)] IN
                 IF l2.i > l.last THEN Go(h, "k_unlock", l2) ELSE Go(h, "k_sublock", l2)
         ELSE FsNop /\ ToCleanup(h, l)
-     /\ Act(h, "K_SubLock", "createexcl", PKTabLock, CreateExclRes(p))
+     /\ ActP(h, "K_SubLock", "createexcl", PKTabLock, CreateExclRes(p), p)
   /\ ApiUnch /\ KeepCtr /\ KeepMem
 
 K_Unlock(h) ==          \* the list lock is released while merging
@@ -394,7 +459,7 @@ K_Unlock(h) ==          \* the list lock is released while merging
   /\ IF Exists(LOCK) THEN FsRemove(h, LOCK, PKLock) ELSE FsNop
   /\ Go(h, "k_temp", [loc[h] EXCEPT !.holdLock = FALSE])
   /\ ApiUnch /\ KeepCtr /\ KeepMem
-  /\ Act(h, "K_Unlock", "remove", PKLock, ExistRes(LOCK))
+  /\ ActP(h, "K_Unlock", "remove", PKLock, ExistRes(LOCK), LOCK)
 
 MergedTab(h, f, l) ==
   [min |-> MinOf(stack[h][f]), max |-> MaxOf(stack[h][l]),
@@ -410,7 +475,7 @@ K_Temp(h) ==            \* TempFile + merge through the open readers + close
      /\ nextId' = nextId + 1 /\ UNCHANGED <<opsLeft, nextTxn>>
      /\ Go(h, "k_relock", [l EXCEPT !.tmp = TM(id), !.tid = id])
   /\ ApiUnch /\ KeepMem
-  /\ Act(h, "K_Temp", "tempfile", PKTmp, "ok")
+  /\ ActP(h, "K_Temp", "tempfile", PKTmp, "ok", TM(nextId))
 
 StackNamesAfter(h, l) ==
   SubSeq(stack[h], 1, l.first - 1) \o <<TN(l.tid)>> \o SubSeq(stack[h], l.last + 1, Len(stack[h]))
@@ -425,7 +490,7 @@ K_Relock(h) ==
         ELSE /\ FsNop
              /\ IF FixRelockOwner THEN ToCleanup(h, l)                                       \* (false, nil)
                 ELSE ToCleanup(h, [l EXCEPT !.holdLock = TRUE, !.res = "other"])             \* D5
-     /\ Act(h, "K_Relock", "createexcl", PKLock, CreateExclRes(LOCK))
+     /\ ActP(h, "K_Relock", "createexcl", PKLock, CreateExclRes(LOCK), LOCK)
   /\ ApiUnch /\ KeepCtr /\ KeepMem
 
 (* the range [first, last] of the in-memory stack, looked up in the list just read *)
@@ -442,7 +507,7 @@ K_Rebase(h) ==
               n == l.last - l.first + 1 IN
           Go(h, "k_rename_tab", [l EXCEPT !.names = SubSeq(cur, 1, p - 1) \o <<TN(l.tid)>> \o SubSeq(cur, p + n, Len(cur))])
   /\ ApiUnch /\ KeepCtr /\ KeepMem
-  /\ Act(h, "K_Rebase", "readfile", PKList, ExistRes(LIST))
+  /\ ActP(h, "K_Rebase", "readfile", PKList, ExistRes(LIST), LIST)
 
 K_RenameTab(h) ==
   /\ pc[h] = "k_rename_tab"
@@ -450,14 +515,14 @@ K_RenameTab(h) ==
      /\ FsRename(h, l.tmp, PKTmp, TN(l.tid), PKTab)
      /\ Go(h, "k_write", [l EXCEPT !.tmp = ""])
   /\ ApiUnch /\ KeepCtr /\ KeepMem
-  /\ Act(h, "K_RenameTab", "rename", PKTmp, "ok")
+  /\ ActP(h, "K_RenameTab", "rename", PKTmp, "ok", loc[h].tmp)
 
 K_Write(h) ==
   /\ pc[h] = "k_write"
   /\ FsWriteNames(h, loc[h].fd, loc[h].names)
   /\ Go(h, "k_commit", loc[h])
   /\ ApiUnch /\ KeepCtr /\ KeepMem
-  /\ Act(h, "K_Write", "write", PKLock, "ok")
+  /\ ActP(h, "K_Write", "write", PKLock, "ok", LOCK)
 
 K_Commit(h) ==
   /\ pc[h] = "k_commit"
@@ -468,13 +533,13 @@ K_Commit(h) ==
      ELSE /\ FsNop
           /\ Go(h, "k_rm_dest", [l EXCEPT !.res = "other"])
   /\ ApiUnch /\ KeepCtr /\ KeepMem
-  /\ Act(h, "K_Commit", "rename", PKLock, ExistRes(LOCK))
+  /\ ActP(h, "K_Commit", "rename", PKLock, ExistRes(LOCK), LOCK)
 
 K_RmDest(h) ==
   /\ pc[h] = "k_rm_dest"
   /\ LET n == TN(loc[h].tid) IN
      /\ IF Exists(n) THEN FsRemove(h, n, PKTab) ELSE FsNop
-     /\ Act(h, "K_RmDest", "remove", PKTab, ExistRes(n))
+     /\ ActP(h, "K_RmDest", "remove", PKTab, ExistRes(n), n)
   /\ ToCleanup(h, loc[h])
   /\ ApiUnch /\ KeepCtr /\ KeepMem
 
@@ -484,7 +549,7 @@ K_Delete(h) ==          \* remove the inputs, in order, then reload
      /\ IF Exists(n) THEN FsRemove(h, n, PKTab) ELSE FsNop
      /\ IF Tail(l.gcq) # <<>> THEN Go(h, "k_delete", [l EXCEPT !.gcq = Tail(@)])
         ELSE Go(h, "r_read", ToReload([l EXCEPT !.gcq = <<>>], "k_reloaded", TRUE))
-     /\ Act(h, "K_Delete", "remove", PKTab, ExistRes(n))
+     /\ ActP(h, "K_Delete", "remove", PKTab, ExistRes(n), n)
   /\ ApiUnch /\ KeepCtr /\ KeepMem
 
 K_Reloaded(h) ==        \* (true, err of reload); then the deferred cleanups
@@ -497,7 +562,7 @@ K_ClTmp(h) ==
   /\ LET l == loc[h] IN
      /\ IF Exists(l.tmp) THEN FsRemove(h, l.tmp, PKTmp) ELSE FsNop
      /\ ToCleanup(h, [l EXCEPT !.tmp = ""])
-     /\ Act(h, "K_ClTmp", "remove", PKTmp, ExistRes(l.tmp))
+     /\ ActP(h, "K_ClTmp", "remove", PKTmp, ExistRes(l.tmp), l.tmp)
   /\ ApiUnch /\ KeepCtr /\ KeepMem
 
 K_ClSub(h) ==
@@ -505,7 +570,7 @@ K_ClSub(h) ==
   /\ LET l == loc[h]  p == Head(l.subq) IN
      /\ IF Exists(p) THEN FsRemove(h, p, PKTabLock) ELSE FsNop
      /\ ToCleanup(h, [l EXCEPT !.subq = Tail(@)])
-     /\ Act(h, "K_ClSub", "remove", PKTabLock, ExistRes(p))
+     /\ ActP(h, "K_ClSub", "remove", PKTabLock, ExistRes(p), p)
   /\ ApiUnch /\ KeepCtr /\ KeepMem
 
 K_ClLock(h) ==
@@ -513,7 +578,7 @@ K_ClLock(h) ==
   /\ IF Exists(LOCK) THEN FsRemove(h, LOCK, PKLock) ELSE FsNop
   /\ ToCleanup(h, [loc[h] EXCEPT !.holdLock = FALSE])
   /\ ApiUnch /\ KeepCtr /\ KeepMem
-  /\ Act(h, "K_ClLock", "remove", PKLock, ExistRes(LOCK))
+  /\ ActP(h, "K_ClLock", "remove", PKLock, ExistRes(LOCK), LOCK)
 
 -----------------------------------------------------------------------------
 (* Close (followed by NewStack: "reopen") *)
@@ -524,17 +589,21 @@ C_Read(h) ==
          gc == IF names = <<>> THEN {} ELSE SetOf(stack[h]) \ SetOf(names)
          l == [loc[h] EXCEPT !.gc = gc] IN
      /\ stack' = [stack EXCEPT ![h] = <<>>] /\ closedRd' = [closedRd EXCEPT ![h] = {}]
-     /\ IF gc = {} THEN Go(h, "r_read", ToReload(l, "ret", TRUE)) ELSE Go(h, "c_gc", l)
+     /\ IF gc # {} THEN Go(h, "c_gc", l)
+        ELSE IF l.op = "close" THEN Go(h, "ret", l)
+        ELSE Go(h, "r_read", ToReload(l, "ret", TRUE))
   /\ ApiUnch /\ KeepCtr
-  /\ Act(h, "C_Read", "readfile", PKList, ExistRes(LIST))
+  /\ ActP(h, "C_Read", "readfile", PKList, ExistRes(LIST), LIST)
 
 C_Gc(h) ==
   /\ pc[h] = "c_gc"
   /\ \E n \in loc[h].gc :
        /\ IF Exists(n) THEN FsRemove(h, n, PKTab) ELSE FsNop
        /\ LET l == [loc[h] EXCEPT !.gc = @ \ {n}] IN
-          IF l.gc = {} THEN Go(h, "r_read", ToReload(l, "ret", TRUE)) ELSE Go(h, "c_gc", l)
-       /\ Act(h, "C_Gc", "remove", PKTab, ExistRes(n))
+          IF l.gc # {} THEN Go(h, "c_gc", l)
+          ELSE IF l.op = "close" THEN Go(h, "ret", l)
+          ELSE Go(h, "r_read", ToReload(l, "ret", TRUE))
+       /\ ActP(h, "C_Gc", "remove", PKTab, ExistRes(n), n)
   /\ ApiUnch /\ KeepCtr /\ KeepMem
 
 -----------------------------------------------------------------------------
@@ -545,7 +614,7 @@ L_Lock(h) ==
      THEN FsCreate(h, LOCK, KFile) /\ Go(h, "l_uptodate", [loc[h] EXCEPT !.holdLock = TRUE])
      ELSE FsNop /\ Go(h, "ret", [loc[h] EXCEPT !.res = "lock"])
   /\ ApiUnch /\ KeepCtr /\ KeepMem
-  /\ Act(h, "L_Lock", "createexcl", PKLock, CreateExclRes(LOCK))
+  /\ ActP(h, "L_Lock", "createexcl", PKLock, CreateExclRes(LOCK), LOCK)
 
 L_UpToDate(h) ==
   /\ pc[h] = "l_uptodate"
@@ -553,7 +622,7 @@ L_UpToDate(h) ==
   /\ IF ListNames = stack[h] THEN Go(h, "r_read", ToReload(loc[h], "l_readdir", TRUE))
                              ELSE Go(h, "l_unlock", [loc[h] EXCEPT !.res = "lock"])
   /\ ApiUnch /\ KeepCtr /\ KeepMem
-  /\ Act(h, "L_UpToDate", "readfile", PKList, ExistRes(LIST))
+  /\ ActP(h, "L_UpToDate", "readfile", PKList, ExistRes(LIST), LIST)
 
 (* unlisted tables in the directory *)
 L_ReadDir(h) ==
@@ -562,7 +631,7 @@ L_ReadDir(h) ==
      ELSE LET un == {p \in DOMAIN dir : p \in DOMAIN tabHist /\ p \notin SetOf(stack[h])} IN
           IF un = {} THEN Go(h, "l_unlock", loc[h]) ELSE Go(h, "l_open", [loc[h] EXCEPT !.gc = un])
   /\ FsNop /\ ApiUnch /\ KeepCtr /\ KeepMem
-  /\ Act(h, "L_ReadDir", "readdir", PKOther, "ok")
+  /\ ActP(h, "L_ReadDir", "readdir", PKOther, "ok", ".")
 
 L_Open(h) ==
   /\ pc[h] = "l_open"
@@ -573,7 +642,7 @@ L_Open(h) ==
                               ELSE Go(h, "l_unlock", [l EXCEPT !.res = "other"]))     \* D15: Clean returned the ENOENT
           ELSE IF MaxOf(n) <= max THEN Go(h, "l_remove", [l EXCEPT !.tmp = n])
           ELSE IF l.gc = {} THEN Go(h, "l_unlock", l) ELSE Go(h, "l_open", l)
-       /\ Act(h, "L_Open", "open", PKTab, ExistRes(n))
+       /\ ActP(h, "L_Open", "open", PKTab, ExistRes(n), n)
   /\ FsNop /\ ApiUnch /\ KeepCtr /\ KeepMem
 
 L_Remove(h) ==
@@ -581,7 +650,7 @@ L_Remove(h) ==
   /\ LET l == loc[h]  n == l.tmp IN
      /\ IF Exists(n) THEN FsRemove(h, n, PKTab) ELSE FsNop
      /\ IF l.gc = {} THEN Go(h, "l_unlock", [l EXCEPT !.tmp = ""]) ELSE Go(h, "l_open", [l EXCEPT !.tmp = ""])
-     /\ Act(h, "L_Remove", "remove", PKTab, ExistRes(n))
+     /\ ActP(h, "L_Remove", "remove", PKTab, ExistRes(n), n)
   /\ ApiUnch /\ KeepCtr /\ KeepMem
 
 L_Unlock(h) ==
@@ -589,36 +658,40 @@ L_Unlock(h) ==
   /\ IF Exists(LOCK) THEN FsRemove(h, LOCK, PKLock) ELSE FsNop
   /\ Go(h, "ret", [loc[h] EXCEPT !.holdLock = FALSE])
   /\ ApiUnch /\ KeepCtr /\ KeepMem
-  /\ Act(h, "L_Unlock", "remove", PKLock, ExistRes(LOCK))
+  /\ ActP(h, "L_Unlock", "remove", PKLock, ExistRes(LOCK), LOCK)
 
 -----------------------------------------------------------------------------
 Ret(h) ==
   /\ pc[h] = "ret"
-  /\ LET res == IF loc[h].op \in {"reload", "reopen"} /\ loc[h].rres # "ok" THEN "other" ELSE loc[h].res IN
+  /\ LET res == IF loc[h].op \in {"reload", "reopen", "open"} /\ loc[h].rres # "ok" THEN "other" ELSE loc[h].res IN
      /\ FsReturn(h, res)
      /\ viol' = viol \cup ReturnViol(h, res)
+     /\ Go(h, IF loc[h].op = "close" \/ (loc[h].op \in {"open", "reopen"} /\ res # "ok") THEN "closed" ELSE "idle", L0)
+     /\ ActP(h, "Ret", "internal", "", res, "")
   /\ UNCHANGED <<dir, ino, lver, committed, cmarks, lastRead, tabHist>>
-  /\ Go(h, "idle", L0)
-  /\ KeepCtr /\ KeepMem /\ Internal(h, "Ret")
+  /\ KeepCtr /\ KeepMem
 
 Crash(h) ==
-  /\ CrashOn /\ pc[h] \notin {"idle", "crashed"}
+  /\ CrashOn /\ pc[h] \notin {"idle", "crashed", "closed"}
   /\ FsCrash(h) /\ FsNop
   /\ pc' = [pc EXCEPT ![h] = "crashed"] /\ UNCHANGED loc
   /\ KeepCtr /\ KeepMem
-  /\ Act(h, "Crash", "crash", "", "")
+  /\ ActP(h, "Crash", "crash", "", "", "")
 
-Step(h) ==
-  \/ Calls(h)
+FsSteps(h) ==
   \/ R_Read(h) \/ R_Open(h) \/ R_Reread(h) \/ R_Gc(h)
   \/ A_Lock(h) \/ A_UpToDate(h) \/ A_UnlockStale(h) \/ A_Temp(h) \/ A_Check(h) \/ A_CheckNew(h) \/ A_RenameTab(h) \/ A_RmTmp(h)
-  \/ A_Write(h) \/ A_Commit(h) \/ A_CloseRm(h) \/ A_CloseUnlock(h) \/ A_Done(h)
+  \/ A_Write(h) \/ A_Commit(h) \/ A_CloseRm(h) \/ A_CloseUnlock(h)
   \/ K_Lock(h) \/ K_UpToDate(h) \/ K_SubLock(h) \/ K_Unlock(h) \/ K_Temp(h) \/ K_Relock(h) \/ K_Rebase(h)
-  \/ K_RenameTab(h) \/ K_Write(h) \/ K_Commit(h) \/ K_RmDest(h) \/ K_Delete(h) \/ K_Reloaded(h)
+  \/ K_RenameTab(h) \/ K_Write(h) \/ K_Commit(h) \/ K_RmDest(h) \/ K_Delete(h)
   \/ K_ClTmp(h) \/ K_ClSub(h) \/ K_ClLock(h)
   \/ C_Read(h) \/ C_Gc(h)
   \/ L_Lock(h) \/ L_UpToDate(h) \/ L_ReadDir(h) \/ L_Open(h) \/ L_Remove(h) \/ L_Unlock(h)
-  \/ Ret(h)
+
+(* what the code computes between two filesystem calls and is visible in pc (folded into no filesystem action) *)
+Silent(h) == A_Done(h) \/ K_Reloaded(h)
+
+Step(h) == Calls(h) \/ FsSteps(h) \/ Silent(h) \/ Ret(h)
 
 Next == \E h \in Handles : Step(h) \/ Crash(h)
 Spec == Init /\ [][Next]_vars
@@ -629,7 +702,7 @@ Spec == Init /\ [][Next]_vars
 (* be found.  (C10: "a reload that races with a compaction either settles on a newer version or reports        *)
 (* failure"; C04: every call is acknowledged or fails.)                                                        *)
 FairSpec == Spec /\ \A h \in Handles : WF_vars(Step(h))
-C10_EveryCallReturns == \A h \in Handles : (pc[h] \notin {"idle", "crashed"}) ~> (pc[h] \in {"idle", "crashed"})
+C10_EveryCallReturns == \A h \in Handles : (pc[h] \notin {"idle", "crashed", "closed"}) ~> (pc[h] \in {"idle", "crashed", "closed"})
 
 -----------------------------------------------------------------------------
 (* Properties that need the implementation level *)
@@ -650,7 +723,7 @@ C10_Snapshot == \A h \in Handles : pc[h] = "idle" => (stack[h] \in lver /\ close
 
 (* the list lock and the per-table locks never outlive the call that took them (unless it was killed) *)
 C16_NoStaleLocks ==
-  (\A h \in Handles : pc[h] = "idle") => \A p \in DOMAIN dir : p \in DOMAIN tabHist \/ p = LIST
+  (\A h \in Handles : pc[h] \in {"idle", "closed"}) => \A p \in DOMAIN dir : p \in DOMAIN tabHist \/ p = LIST
 
 Bounded == nextId <= MaxIds + 1
 =============================================================================
